@@ -5,8 +5,6 @@
 From GC Require Import Base Model_Inventory.
 
 Definition reviewed_map_sites : list reviewed_site := [
-  {| rs_file := "dupImports_checker.go"; rs_fn := "dupImportChecker.WalkFile"; rs_expr := "imports"; rs_flags := (true, false, false, false);
-     rs_verdict := "order-dependent"; rs_why := "emits one block of warnings per duplicate group while ranging: the order of the blocks is the map order (C02_dup_import_det_refuted; deterministic with at most one duplicate group: C02_dup_import_det_partial; open finding C02/dupImport/map-order)" |};
   {| rs_file := "importShadow_checker.go"; rs_fn := "importShadowChecker.VisitLocalDef"; rs_expr := "c.ctx.PkgObjects"; rs_flags := (true, false, false, false);
      rs_verdict := "deterministic"; rs_why := "at most one entry can match: the local names of the imports of one file are distinct (C02_import_shadow_det)" |};
   {| rs_file := "ruleguard_checker.go"; rs_fn := "newErrorHandler"; rs_expr := "failOnErrorPredicates"; rs_flags := (false, true, false, false);
